@@ -85,6 +85,13 @@ def bounded_segments(chk, seed, thorough):
             for g in P.GARBAGE[: (7 if thorough else 4)]:
                 t2 = "\n".join(lines[:b] + [g] + lines[b:])
                 cases.append({"kind": "garbage-inside", "text": t2, "name": "a.c", "g": g})
+        for g in P.UNRECOGNISABLE:
+            for b in [0] + bounds:
+                t2 = "\n".join(lines[:b] + [g] + lines[b:])
+                cases.append({"kind": "unrecognisable", "text": t2, "name": "a.c", "g": g, "at": b})
+        for g in P.GARBAGE[: (7 if thorough else 4)]:
+            cases.append({"kind": "garbage-first-line", "text": g + "\n" + text, "name": "a.c", "g": g})
+            cases.append({"kind": "garbage-first-line-glued", "text": g + ";\n" + text, "name": "a.c", "g": g})
         for g in P.GARBAGE:
             cases.append({"kind": "garbage-last-line", "text": text + g + "\n", "name": "a.c", "g": g})
             cases.append({"kind": "garbage-last-line-no-newline", "text": text + g, "name": "a.c", "g": g})
@@ -133,6 +140,9 @@ def bounded_segments(chk, seed, thorough):
                          f"{c['want']} by construction")
                 elif r["scope_end"] != "GlobalScope":
                     m = f"nesting depth is not back at file level after a body made of [{c['shape']}] ({r['scope_end']})"
+            if m is None and c["kind"] == "unrecognisable" and not r["fatal"]:
+                m = (f"the unrecognisable statement {c['g']!r} inserted at line {c['at'] + 1} does not stop the run with a "
+                     f"fatal diagnostic (status {r['status']}, diagnostics {r['errors'][:3]})")
             if m is None and c["kind"].startswith("garbage"):
                 if not r["fatal"] and r["status"] == "OK":
                     m = f"unrecognisable text {c['g']!r} ({c['kind']}) was dropped and the file is OK!"
